@@ -1,7 +1,56 @@
+import PvlModel.Lemmas.Num
 import PvlModel.Model.Spec
 /-!
 # C03 — well-formed text decodes to the values the dialect grammar assigns
-(theorems are added below as they are proved; see DESIGN §5)
+
+What is proved here is the integer part of the statement, for *every* integer (no bound on the number
+of digits inside the model's domain): the canonical decimal spelling — an optional `-` followed by the
+digits, most significant first, no leading zeros — denotes exactly that integer under each of the
+five decoders, i.e. it is not claimed by an earlier step of the decoder cascade (keyword, quoted string,
+based integer) and `int()` as modelled from CPython returns the value.  `NumSafe` is the only fact about
+the grammar tables that the proof uses; it is evaluated on the tables regenerated from /repo.
+
+The rest of C03 (reals, based integers, dates, strings, aggregates, layout) is decided by comparing the
+real loader, the generator's own reading of each literal, the parser model and the Lean specification
+`Spec.specLoad` on every generated text (`vlib/props/c03.py`).
 -/
 namespace Pvl
+open Py Enc
+
+theorem numSafe_tables :
+    NumSafe Gen.pvl = true ∧ NumSafe Gen.odl = true ∧ NumSafe Gen.pds = true ∧
+    NumSafe Gen.isis = true ∧ NumSafe Gen.omni = true := by decide
+
+/-- **C03, integers**: with any of the five grammar tables and any decoder class, `str(i)` decodes to `i`. -/
+theorem C03_int_literal (d : Dec) (hg : d.g = Gen.pvl ∨ d.g = Gen.odl ∨ d.g = Gen.pds ∨ d.g = Gen.isis ∨ d.g = Gen.omni)
+    (i : Int) : decodeSimple d (intStr i) = .ok (.int i) := by
+  apply decodeSimple_intStr
+  obtain ⟨h1, h2, h3, h4, h5⟩ := numSafe_tables
+  rcases hg with h | h | h | h | h <;> rw [h] <;> assumption
+
+/-- the value of a digit string is its positional value: `int("d₁…dₖ")` for ASCII digits, with
+    leading zeros allowed (`007` is 7) -/
+theorem C03_digits_value (s : Str) (hs : s ≠ []) (hd : AllDigits s) :
+    int10 s = some (digitsVal s 0 : Int) := by
+  have hascii : ∀ c ∈ s, c < 128 := fun c hc => (digit_facts c (hd c hc)).1
+  have hsp : ∀ c ∈ s, cSpace c = false := fun c hc => (digit_facts c (hd c hc)).2.1
+  obtain ⟨hh, hl⟩ := head_getLast_of_all (p := fun c => cSpace c = false) _ hsp
+  unfold int10
+  rw [toAsciiNum_of_ascii _ hascii, cstrip_id _ hh hl]
+  have hsplit : splitSign s = (false, s) := by
+    cases s with
+    | nil => exact absurd rfl hs
+    | cons c r =>
+      have hc := digit_facts c (hd c (by simp))
+      unfold splitSign
+      split
+      · rename_i heq; simp at heq; omega
+      · rename_i heq; simp at heq; omega
+      · rfl
+  simp only [hsplit]
+  rw [scanDigits_digits _ hd 0 false (Or.inl hs)]
+  simp
+
+example : decodeSimple ⟨Gen.odl, .odl⟩ (intStr (-42)) = .ok (.int (-42)) := C03_int_literal _ (by simp) _
+
 end Pvl
